@@ -115,3 +115,49 @@ Proof.
       destruct (a_ver a) as [[[x y] z] w]. unfold Version.cmp in C.
       destruct (N.compare_spec x 0), (N.compare_spec y 0), (N.compare_spec z 0), (N.compare_spec w 0); try discriminate; subst; reflexivity.
 Qed.
+
+(* ---------- storage maps ---------- *)
+Lemma sm_get_remove_same m k : sm_get (sm_remove m k) k = None.
+Proof.
+  induction m as [|[k' v] r IH]; cbn [sm_remove sm_get]; [reflexivity|].
+  destruct (bytes_eqb k' k) eqn:E; [exact IH|]. cbn [sm_get]. rewrite E. exact IH.
+Qed.
+Lemma sm_get_set_same m k v : sm_get (sm_set m k v) k = Some v.
+Proof. unfold sm_set. cbn [sm_get]. rewrite bytes_eqb_refl. reflexivity. Qed.
+
+Definition apply_store_op (op : store_op) (m : smap) : smap :=
+  match op with
+  | SSetInt k v => sm_set m k (VInt v)
+  | SSetStr k v => sm_set m k (VStr v)
+  | SRemove k => sm_remove m k
+  | SCommit => m
+  end.
+
+Lemma parse_retry_after_whole_seconds h x : parse_retry_after h = Some x -> x mod 1000000000 = 0 /\ 0 <= x.
+Proof.
+  unfold parse_retry_after. destruct h as [v|]; [|discriminate].
+  destruct (to_str_ok v); [|discriminate]. destruct (parse_u64 v) as [n|]; [|discriminate].
+  intro H. inversion H. split; [apply Z.mod_mul; lia|unfold MAX_RETRY_AFTER_S; lia].
+Qed.
+
+Require Import Verif.Model.Monitors.
+(* a restarted state machine starts from the stored interval *)
+Lemma poll_restart h s :
+  ps_poll (snd (ctx_load (apply_store_op (poll_store_op (parse_retry_after h)) s))) = parse_retry_after h.
+Proof.
+  destruct (parse_retry_after h) as [x|] eqn:E.
+  - destruct (parse_retry_after_whole_seconds _ _ E) as [Hm Hp].
+    pose proof (parse_retry_after_range _ _ E) as Hr.
+    unfold poll_store_op. cbv zeta.
+    assert (Hfit : x / 1000 <=? i64_max = true).
+    { apply Z.leb_le. unfold i64_max. assert (x / 1000 <= 86400 * 1000000) by (apply Z.div_le_upper_bound; lia). lia. }
+    rewrite Hfit. cbn [apply_store_op]. unfold ctx_load. rewrite sm_get_set_same.
+    assert (0 <=? x / 1000 = true) by (apply Z.leb_le, Z.div_pos; lia).
+    cbn [snd ps_poll]. rewrite H. f_equal.
+    assert (x mod 1000 = 0).
+    { replace 1000000000 with (1000 * 1000000) in Hm by reflexivity.
+      rewrite Z.rem_mul_r in Hm by lia. pose proof (Z.mod_pos_bound x 1000 ltac:(lia)).
+      pose proof (Z.mod_pos_bound (x / 1000) 1000000 ltac:(lia)). lia. }
+    pose proof (Z.div_mod x 1000 ltac:(lia)). lia.
+  - unfold poll_store_op. cbn [apply_store_op]. unfold ctx_load. rewrite sm_get_remove_same. reflexivity.
+Qed.
